@@ -37,6 +37,17 @@ CertBlockEnd / Manifest / ManifestCrc / VerifySigV21 / CheckDigest -> Accept wit
       the classes without a family.  The tool may refuse a length (a refusal exports nothing: recorded, not judged); whatever it
       exports is walked and decided by TLC like any other image - IskOK: the ISK signature verifies over the bytes in front of it
       exactly as they stand in the file.
+ Strengthening round (seed C02-m11): HISTORIES of the objects an image is built from (spec/C02/MbiHist.tla, on top of MbiRomMC):
+      the certificate block object in hand and the live MasterBootImage object have a life before the export that is judged -
+      NewCb / NewMbi(payload) / SetApp(payload) / Export / Sb (an SB2.1 container signed with the block) / Parse (the last image
+      read back: new MBI object, new block object) / CbBin (the block cut out of the last image, read through `certBlock:`).
+      TLC walks every exported abstract image through the ROM model (lemma HistoryAccepted: the format has no memory; lemma
+      KeptRejected: an exporter that keeps what the block object holds is rejected exactly where the history left the length of
+      something else) and, with the program outside the VIEW, prints ONE shortest program per (abstract state, Export).  The
+      harness replays every maximal program on real objects in EVERY composition of the kind (all kinds: CRC, v1, v2.1),
+      deterministically in both tiers; every exported image is walked and decided by TLC like any other image (certificate block
+      v1: Sig1OK demands header length = signed length).  The register of the real block object is read in front of every
+      export only to confirm that the planned class was reached.
 """
 import json
 import os
@@ -484,15 +495,10 @@ def build(case, comp, d):
     return data, rom, sec, info
 
 
-def build_once(case, comp, d, patch):
-    from spsdk.image.mbi.mbi import get_mbi_class
-
+def make_cfg(case, comp, d, patch):
+    """The configuration of a case (all input files written under d) -> (cfg, ctx); ctx: what the ROM model is told about the image."""
     os.makedirs(d, exist_ok=True)
     signers = {}
-    if case.get("be"):
-        from lib import mbi_sigprov
-
-        mbi_sigprov.take_calls()
     mem = next(m for m in comp["members"] if m["family"] == case["family"] and m["target"] == case["target"] and m["auth"] == case["auth"])
     f = lambda name: os.path.join(d, name)  # noqa: E731
     app = gen_app(case["len"], case["seed"], patch)
@@ -568,6 +574,29 @@ def build_once(case, comp, d, patch):
         elif case.get("digest") == "explicit":
             signer_curve = (v["isk"] or v["curve"])[:4]
             cfg["manifestDigestHashAlgorithm"] = "sha256" if signer_curve == "p256" else "sha384"
+    return cfg, {"app": app, "uk": uk, "tz_data": tz_data, "rel": rel, "signers": signers, "mem": mem}
+
+
+def rom_of(comp, mem):
+    return {"type": comp["type"], "cb": comp["cb"], "hmac": bool(comp["hmac"]), "tz": mem["tz"], "man": comp["man"], "ksdev": False}
+
+
+def payload_of(comp, app, rel):
+    appa = app + bytes(-len(app) % 4)
+    return appa + (reloc_bytes(rel, len(appa)) if comp["opts"]["reloc"] and rel else b"")
+
+
+def build_once(case, comp, d, patch):
+    from spsdk.image.mbi.mbi import get_mbi_class
+
+    if case.get("be"):
+        from lib import mbi_sigprov
+
+        mbi_sigprov.take_calls()
+    cfg, ctx = make_cfg(case, comp, d, patch)
+    app, uk, tz_data, rel, signers, mem = (ctx[k] for k in ("app", "uk", "tz_data", "rel", "signers", "mem"))
+    op = comp["opts"]
+    f = lambda name: os.path.join(d, name)  # noqa: E731
     if case.get("route") == "cli":
         # the nxpimage route: schema validation, export, output file, RKTH as printed for the user
         import contextlib
@@ -594,10 +623,9 @@ def build_once(case, comp, d, patch):
         if case.get("route") == "api2":  # the same object exported a second time: that image has to boot as well
             data = mbi.export()
         fuse = mbi.rkth
-    rom = {"type": comp["type"], "cb": comp["cb"], "hmac": bool(comp["hmac"]), "tz": mem["tz"], "man": comp["man"], "ksdev": False}
+    rom = rom_of(comp, mem)
     sec = {"userKey": uk, "fuse": fuse if comp["cb"] else None, "plain": None}
-    appa = app + bytes(-len(app) % 4)
-    payload = appa + (reloc_bytes(rel, len(appa)) if op["reloc"] and rel else b"")
+    payload = payload_of(comp, app, rel)
     if comp["type"] == 3:
         sec["plain"] = R.mask_rom_words(payload) + tz_data
     info = {"cfg": cfg, "pay": len(payload)}
@@ -636,6 +664,9 @@ def feature_class(case):
         f.append(f"be:{case['be']['img']}/{case['be']['isk']}")  # who signed the image / the ISK certificate
     if case.get("udr"):
         f.append(f"ud:{case['udcls']}{'' if case['v21']['ud'] < 8 else '-big'}/{case['udr']}")  # length class of the ISK user data / route
+    if case.get("hstep"):
+        h = case["hstep"]["pre"]
+        f.append(f"hist:{h['src']}/{h['age']}/{h['rel']}/{h['chg']}")  # who wrote the block in hand last / age of the MBI object / its length register vs this image / payload vs last image
     return "+".join(f) or "base"
 
 
@@ -684,6 +715,229 @@ def run_case(job):
             ev2, _ = R.walk(bytes(b2), rom, sec)
             res["tamper"].append({"id": f"{case['id']}#{pos}.{bit}", "cls": name, "rom": rom, "pay": _info["pay"], "ev": ev2})
     return res
+
+
+# ------------------------------------------------------------------ histories of the objects an image is built from (MbiHist.tla)
+HIST_SRC = ("own", "other", "sb", "parsed", "bin")
+
+
+def hist_mc(tier):
+    """TLC on MbiHist: lemmas + one shortest program per (abstract state, Export). One worker: breadth first, deterministic."""
+    return tlc.mc("C02", "MbiHist", "MbiHist.cfg", env={"MC_FULL": "0" if tier == "quick" else "1"}, workers=1, heap="2g", timeout=600, deadlock=False,
+                  require_actions=("NewCb", "NewMbi", "SetApp", "Sb", "Parse", "CbBin", "Export", "Rom", "Judge"))
+
+
+def hist_plan(v, g):
+    """What the history run planned: per kind the maximal programs (a program that is the beginning of another one is run with it) and
+    the classes (who wrote the block in hand last, age of the MBI object, its length register vs the image) of every export."""
+    v.add_mc(g)
+    progs, classes, kept = {}, {}, {}
+    for j in g.json_prints():
+        ops = [(o["op"], o["a"]) for o in j["prog"]]
+        pre = j["pre"]
+        if j["hx"] == "kept":  # the lemma KeptRejected, not a plan: which sources of a stale length the model exporter trips over
+            want = "Rejected" if pre["rel"] in ("sb", "longer", "shorter") else "Accepted"
+            if j["verdict"] != want:
+                raise Machinery(f"GEN: the ROM model says {j['verdict']} to an image whose header keeps the length the block held ({pre})")
+            if j["verdict"] == "Rejected":
+                kept.setdefault(j["kind"], set()).add((pre["src"], pre["rel"]))
+            continue
+        if j["verdict"] != "Accepted":
+            raise Machinery(f"GEN: the ROM model does not accept the image of the format after the history {ops}")
+        progs.setdefault(j["kind"], []).append(j["prog"])
+        classes.setdefault(j["kind"], set()).add((pre["src"], pre["age"], pre["rel"], pre["chg"]))
+    for k in ("v1_xip", "v1_ram", "v1_enc"):
+        need = {(s, r) for s in HIST_SRC for r in ("longer", "shorter") if s != "sb"} | {("sb", "sb")}
+        if not need <= kept.get(k, set()):
+            raise Machinery(f"GEN: the stale-length lemma of kind {k} is vacuous for {sorted(need - kept.get(k, set()))}")
+        if not {x for x in classes.get(k, ()) if x[2] in ("sb", "longer", "shorter")}:
+            raise Machinery(f"GEN planned no history of kind {k} that leaves the length of something else in the block")
+    plan = {}
+    for k, ps in progs.items():
+        keys = [tuple((o["op"], o["a"]) for o in p) for p in ps]
+        plan[k] = [p for p, key in zip(ps, keys) if not any(len(o) > len(key) and o[:len(key)] == key for o in keys)]
+    if set(plan) != {"crc_xip", "crc_ram", "v1_xip", "v1_ram", "v1_enc", "v21_dig", "v21_crc"} or not all(plan.values()):
+        raise Machinery(f"GEN planned no history for some kind: { {k: len(x) for k, x in plan.items()} }")
+    return {"progs": plan, "classes": classes, "kept": {k: sorted(x) for k, x in kept.items()}}
+
+
+def make_hist_cases(comps, tier, r, hplan, first):
+    """Every maximal program x every composition of its kind (thorough: x every TrustZone block size of the composition)."""
+    cases = []
+    quick = tier == "quick"
+    for comp in comps:
+        if comp["kind"] == "dsc":
+            continue
+        mems = comp["members"]
+        by_tz = {}
+        for m in mems:
+            by_tz.setdefault(m["tz"], []).append(m)
+        reps = [x[0] for x in by_tz.values()]
+        long = sorted({aligned(n): n for n in LENS if n >= 64}.values())  # payloads of pairwise different aligned size, not the unsettled corner
+        for prog in hplan["progs"][comp["kind"]]:
+            for mem in ([r.choice(reps) if r.random() < 0.7 else r.choice(mems)] if quick else reps):
+                c = {"comp": comp["id"], "kind": comp["kind"], "family": mem["family"], "target": mem["target"], "auth": mem["auth"]}
+                c.update(common_opts(comp, mem, r, tier))
+                sizes = sorted({o["a"] for o in prog if o["a"]})
+                parse = any(o["op"] == "Parse" for o in prog)
+                if parse:  # what the reader gives back of custom TrustZone data / relocation tables is the subject of C01 (known findings there)
+                    if c["tz"] == "custom":
+                        c["tz"] = "default"
+                    c["reloc"] = []
+                pick = sorted(r.sample(range(len(long)), len(sizes)))
+                c["hist"] = {"prog": [{k: o[k] for k in ("op", "a", "cbl", "src", "age", "rel", "chg")} for o in prog],
+                             "lens": {str(a): long[i] for a, i in zip(sizes, pick)},  # the order of the abstract sizes is kept
+                             "setapp": r.choice(["attr", "file"]), "sections": r.randrange(1, 3)}
+                c["len"] = c["hist"]["lens"][str(sizes[0])]
+                if comp["cb"] == 1:
+                    c["v1"] = {"bits": 2048 if quick else r.choice(K.RSA_BITS), "nroots": r.randrange(1, 5), "used": 0, "depth": r.choice([1, 2])}
+                elif comp["cb"] == 21:
+                    curve, n = r.choice(["p256", "p384"]), r.randrange(1, 5)
+                    isk = r.choice([None, "p256_isk"])
+                    c.update(v21={"curve": curve, "roots": [f"r{i}" for i in range(n)], "used": r.randrange(n), "isk": isk, "ud": r.choice([0, 4]) if isk else 0,
+                                  "cons": r.getrandbits(31)}, digest=None)
+                c["route"] = "hist"
+                c["id"] = f"h{first + len(cases)}"
+                cases.append(c)
+    return cases
+
+
+def hist_replay(case, comp, d, upto=None):
+    """Replays the program of a history case on real objects. Returns (exports, failure): exports = one record per Export of the program
+    (bytes, what the ROM model is told, the register of the block object in front of the export); failure = None or (op index, exception)."""
+    from spsdk.crypto.signature_provider import SignatureProvider
+    from spsdk.image.mbi.mbi import MasterBootImage, get_mbi_class
+    from spsdk.utils.crypto.cert_blocks import CertBlockV1, CertBlockV21
+
+    os.makedirs(d, exist_ok=True)
+    CB = {0: None, 1: CertBlockV1, 21: CertBlockV21}[comp["cb"]]
+    h = case["hist"]
+    cfgs = {}
+
+    def cfg_of(a):  # the configuration of the case with the payload of abstract size a (same options, same keys, same TrustZone data)
+        if a not in cfgs:
+            cfgs[a] = make_cfg(dict(case, len=h["lens"][str(a)]), comp, os.path.join(d, f"app{a}"), None)
+        return cfgs[a]
+
+    first = next(o["a"] for o in h["prog"] if o["a"])
+    st = {"hand": None, "bin": None, "m": None, "ctx": None, "app": None, "last": None}
+
+    def provider():
+        return SignatureProvider.create(f"type=file;file_path={cfg_of(first)[1]['signers']['img']}")
+
+    def hand():
+        if st["hand"] is None:  # a block nobody has used yet: from the configuration
+            st["hand"] = CB.from_config(cfg_of(first)[0], search_paths=[d])
+        return st["hand"]
+
+    exports = []
+    for i, o in enumerate(h["prog"]):
+        try:
+            if o["op"] == "NewCb":
+                st.update(hand=None, bin=None, m=None)
+            elif o["op"] == "NewMbi":
+                cfg, ctx = cfg_of(o["a"])
+                if CB and st["bin"]:  # the block cut out of an image: the configuration names the binary
+                    cfg = {k: x for k, x in cfg.items() if not k.startswith(("rootCertificate", "chainCertificate", "mainRootCertId"))}
+                    cfg["certBlock"] = st["bin"]
+                m = get_mbi_class(cfg)()
+                m.load_from_config(cfg, search_paths=[d])
+                if CB and not st["bin"] and st["hand"] is not None:  # the block in hand goes into the new object: the class constructor
+                    kw = {}
+                    for base in type(m).__mro__:
+                        for name in getattr(base, "NEEDED_MEMBERS", {}):
+                            kw[name] = getattr(m, name)
+                    kw.update(cert_block=st["hand"], family=m.family, revision=m.revision, search_paths=[d])
+                    m = type(m)(**kw)
+                if CB:
+                    st["hand"] = m.cert_block
+                st.update(m=m, ctx=ctx, app=ctx["app"], bin=None)
+            elif o["op"] == "SetApp":
+                cfg, ctx = cfg_of(o["a"])
+                if h["setapp"] == "file":
+                    st["m"].load_binary_image_file(cfg["inputImageFile"])
+                else:
+                    st["m"].app = ctx["app"]
+                st["app"] = ctx["app"]
+            elif o["op"] == "Sb":
+                from spsdk.sbfile.sb2.commands import CmdErase
+                from spsdk.sbfile.sb2.images import BootImageV21, BootSectionV2
+
+                sbf = BootImageV21(kek=bytes(32), product_version="1.0.0", component_version="1.0.0", build_number=1)
+                sbf.cert_block = hand()
+                sbf.signature_provider = provider()
+                for k in range(h["sections"]):
+                    sbf.add_boot_section(BootSectionV2(k, CmdErase(address=0x1000 * k, length=0x1000)))
+                sbf.export()
+                st["bin"] = None
+            elif o["op"] == "Parse":
+                ctx = st["last"]["ctx"]
+                m = MasterBootImage.parse(case["family"], st["last"]["data"], dek=ctx["uk"].hex() if ctx["uk"] else None)
+                if CB:
+                    m.signature_provider = provider()  # the reader cannot know the private key
+                    st["hand"] = m.cert_block
+                if ctx["uk"] and not getattr(m, "hmac_key", None):
+                    m.hmac_key = ctx["uk"]
+                st.update(m=m, ctx=ctx, app=st["last"]["app"], bin=None)
+            elif o["op"] == "CbBin":
+                ev = st["last"]["ev"]
+                if comp["cb"] == 1:
+                    a = next(e["at"] for e in ev if e["ev"] == "CertBlockV1")
+                    z = next(aligned(e["at"] + e["len"]) for e in ev if e["ev"] == "RkhTable")
+                else:
+                    a = next(e["at"] for e in ev if e["ev"] == "CertBlockV21")
+                    z = next(e["at"] for e in ev if e["ev"] == "CertBlockEnd")
+                path = os.path.join(d, f"certblock{i}.bin")
+                open(path, "wb").write(st["last"]["data"][a:z])
+                st.update(hand=CB.from_config({"certBlock": path}, search_paths=[d]), bin=path, m=None)
+            elif o["op"] == "Export":
+                m, ctx = st["m"], st["ctx"]
+                reg_len = m.cert_block.image_length if comp["cb"] == 1 else None
+                data = m.export()
+                rom = rom_of(comp, ctx["mem"])
+                sec = {"userKey": ctx["uk"], "fuse": m.rkth if comp["cb"] else None, "plain": None}
+                payload = payload_of(comp, st["app"], ctx["rel"])
+                if comp["type"] == 3:
+                    sec["plain"] = R.mask_rom_words(payload) + ctx["tz_data"]
+                ev, reg = R.walk(data, rom, sec)
+                prev = st["last"]
+                st["last"] = {"data": data, "ev": ev, "ctx": ctx, "app": st["app"]}
+                st["bin"] = None
+                # did the real block object hold what the model says it holds in front of this export?
+                reached = None
+                if comp["cb"] == 1:
+                    prev_hdr = next((e["imgLen"] for e in (prev["ev"] if prev else ()) if e["ev"] == "CertBlockV1"), None)
+                    reached = (reg_len == 0) if o["cbl"] == 0 else (reg_len != 0) if o["src"] == "sb" else (reg_len != 0 and reg_len == prev_hdr)
+                exports.append({"k": len(exports), "op": i, "data": data, "rom": rom, "sec": sec, "pay": len(payload), "ev": ev, "reg": reg,
+                                "len": len(st["app"]), "reached": reached, "pre": {k: o[k] for k in ("cbl", "src", "age", "rel", "chg")}})
+                if upto is not None and len(exports) > upto:
+                    break
+            else:
+                raise Machinery(f"GEN named an operation the harness cannot replay: {o}")
+        except Machinery:
+            raise
+        except Exception as x:  # noqa: BLE001 - the tool refuses a step: nothing is exported from here on, nothing is judged
+            return exports, (i, x)
+    return exports, None
+
+
+def run_hist(job):
+    """Worker: one history -> one result per exported image (+ one for a refused step)."""
+    case, comp = job
+    exports, failure = hist_replay(case, comp, os.path.join(scratch(), "c02", case["id"]))
+    out = []
+    for e in exports:
+        cid = f"{case['id']}.e{e['k']}"
+        out.append({"id": cid, "of": case["id"], "outcome": "exported", "trace": {"id": cid, "rom": e["rom"], "pay": e["pay"], "ev": e["ev"]},
+                    "n": len(e["data"]), "tamper": [], "reg": e["reg"], "sha": sha(e["data"].hex()), "hist_reached": e["reached"],
+                    "hstep": {"k": e["k"], "op": e["op"], "pre": e["pre"]}, "len": e["len"]})
+    if failure:
+        from spsdk.exceptions import SPSDKError
+
+        i, x = failure
+        out.append({"id": f"{case['id']}.x{i}", "of": case["id"], "outcome": "refused" if isinstance(x, SPSDKError) else "crash",
+                    "exc": f"{case['hist']['prog'][i]['op']}: {type(x).__name__}: {str(x)[:200]}"})
+    return out
 
 
 # ------------------------------------------------------------------ run
@@ -780,6 +1034,15 @@ def canary(good_trace):
             b2["id"] = "canary-bad-fact"
             b2["ev"][i]["ok"] = False
             bads += [b1, b2]
+    # the header of certificate block v1 names the authenticated length of THIS image: the same trace with the length of another image in it
+    i = next((i for i, e in enumerate(good["ev"]) if e["ev"] == "CertBlockV1"), None)
+    if i is None:
+        raise Machinery("canary: no certificate block v1 in the known-good trace")
+    for name, delta in (("canary-stale-header-length-longer", 4), ("canary-stale-header-length-shorter", -236)):
+        b5 = json.loads(json.dumps(good))
+        b5["id"] = name
+        b5["ev"][i]["imgLen"] += delta
+        bads.append(b5)
     b3 = json.loads(json.dumps(good))
     b3["id"] = "canary-skipped-step"
     del b3["ev"][-2]
@@ -834,8 +1097,8 @@ def canary_verdict(rej, can):
     if got != want:
         raise Machinery(f"canary failed: rejected {sorted(got)}, expected exactly {sorted(want)}")
     return (f"{len(can) - len(want)} known-good traces accepted (a golden image; its ISK twin with user data of 1, 2, 3 mod 4 bytes); {len(want)} "
-            f"corrupted copies (signed range short by one word, crypto fact false, step skipped, ordinary image leaving through the "
-            f"unsettled-corner exit, ISK user data padded in the file but outside the ISK signature) rejected")
+            f"corrupted copies (signed range short by one word, crypto fact false, step skipped, header of certificate block v1 holding the length of "
+            f"another image, ordinary image leaving through the unsettled-corner exit, ISK user data padded in the file but outside the ISK signature) rejected")
 
 
 def anchors():
@@ -938,19 +1201,42 @@ def run(tier):
     say(f"[C02] {len(comps)} protected mixin compositions in the database ({sum(1 for c in comps if c['kind'] == 'dsc')} DSC, outside the domain)")
     scratch()
     # MC + GEN first: lemmas of the ROM model, the tamper plan and the plan of the lengths / special values the cases have to reach
+    # (the history model runs beside it in a thread; lib.tlc numbers its work directories with a counter: wait until the thread has made its own)
+    import threading
+    import time
+
+    hbox, n0 = {}, tlc._counter[0]
+
+    def _hist():
+        try:
+            hbox["res"] = hist_mc(tier)
+        except BaseException as x:  # noqa: BLE001 - handed to the main thread
+            hbox["exc"] = x
+
+    th = threading.Thread(target=_hist)
+    th.start()
+    while th.is_alive() and not os.path.isdir(os.path.join(scratch(), f"tlc-{n0 + 1}")):
+        time.sleep(0.02)
     gen = mc_plan(v, mc_run(tier))
+    th.join()
+    if "exc" in hbox:
+        raise hbox["exc"]
+    hplan = hist_plan(v, hbox["res"])
     plan = gen["plan"]
     n_sp = sum(len(x) for x in gen["special"].values())
     say(f"[C02] MC done {v.timer.s()}s: {v.cov['states']} states, {len(plan)} (kind, field class) verdicts, payload lengths below byte 64: "
         f"{sorted(set().union(*gen['small'].values()))}, {n_sp} special value classes of chained computations")
     cases = make_cases(comps, tier, r, gen)
+    hcases = make_hist_cases(comps, tier, r, hplan, len(cases))
+    say(f"[C02] histories: {sum(len(x) for x in hplan['progs'].values())} maximal programs planned by TLC "
+        f"({', '.join(f'{k} {len(x)}' for k, x in sorted(hplan['progs'].items()))}), {len(hcases)} (program, composition) cases")
     cases_by_id = {c["id"]: c for c in cases}
 
     # tamper selection: per (composition, key class) one image with class-wise flips; thorough: + every bit of the smallest image per kind
     # (images with a special value / of the signing back-end lane are ordinary images as far as the regions go: not tampered with)
     seen, tam = set(), {}
     for c in cases:
-        if c.get("special") or c.get("be") or c.get("udr"):
+        if c.get("special") or c.get("be") or c.get("udr") or c.get("hist"):
             continue
         k = (c["comp"], key_class(c).split("-")[0], feature_class(c)) if tier == "quick" else (c["comp"], key_class(c), feature_class(c))
         if k not in seen:
@@ -958,7 +1244,44 @@ def run(tier):
             tam[c["id"]] = "classes"
 
     jobs = [(c, comps_by_id[c["comp"]], tam.get(c["id"])) for c in cases]
-    results = pmap(run_case, jobs, chunksize=4)
+    # one pool for both lanes (the histories first: their programs are the longer jobs)
+    parts = pmap(lambda j: run_hist(j) if len(j) == 2 else [run_case(j)], [(c, comps_by_id[c["comp"]]) for c in hcases] + jobs, chunksize=4)
+    results = [part[0] for part in parts[len(hcases):]]
+    # the histories: one result per exported image of a program (its case: the program's case + which export it is)
+    hist_stats, hist_missed, hist_refused = {}, [], []
+    hcase = {c["id"]: c for c in hcases}
+    for res in (x for part in parts[:len(hcases)] for x in part):
+        c0 = hcase[res["of"]]
+        if res["outcome"] != "exported":
+            hist_refused.append(f"{c0['comp']}: {res['exc']}")
+            continue
+        c = dict(c0, id=res["id"], len=res["len"], hstep=res["hstep"])
+        cases_by_id[c["id"]] = c
+        results.append(res)
+        h = res["hstep"]["pre"]
+        st = hist_stats.setdefault(f"{c['kind']}/{h['src']}/{h['age']}/{h['rel']}/{h['chg']}", {"exported": 0, "compositions": set(), "register_confirmed": 0})
+        st["exported"] += 1
+        st["compositions"].add(c["comp"])
+        st["register_confirmed"] += res["hist_reached"] is True
+        if res["hist_reached"] is False:
+            hist_missed.append(f"{c['id']} {c['comp']} {h}")
+    # every class TLC planned has to be exported in every composition of its kind (a refused step would hide the rest of its program)
+    hist_holes = []
+    for cp in comps:
+        if cp["kind"] == "dsc":
+            continue
+        for (src, age, rel, chg) in sorted(hplan["classes"][cp["kind"]]):
+            if cp["id"] not in hist_stats.get(f"{cp['kind']}/{src}/{age}/{rel}/{chg}", {"compositions": ()})["compositions"]:
+                hist_holes.append(f"{cp['id']}: {src}/{age}/{rel}/{chg}")
+    for st in hist_stats.values():
+        st["compositions"] = len(st["compositions"])
+    v.extra["histories"] = hist_stats
+    v.extra["histories_refused_steps"] = sorted(set(hist_refused))[:20]
+    v.extra["histories_not_reached"] = (hist_missed + hist_holes)[:20]
+    v.extra["stale_length_rejected_by_model"] = hplan["kept"]
+    say(f"[C02] histories: {sum(st['exported'] for st in hist_stats.values())} images exported along {len(hcases)} programs, {len(hist_stats)} "
+        f"(kind, block written by, object age, register vs image, payload vs last image) classes, register of the real block object confirmed in front of "
+        f"{sum(st['register_confirmed'] for st in hist_stats.values())} exports, {len(hist_refused)} steps refused by the tool")
     v.count(len(results))
     out = {}
     for res in results:
@@ -1035,7 +1358,7 @@ def run(tier):
     if tier == "thorough":  # every bit of the smallest accepted image per kind (<= 4 KiB)
         best = {}
         for res in results:
-            if res["outcome"] == "exported" and res["n"] <= 4096 and res["trace"]["ev"][-1]["ev"] == "Accept":
+            if res["outcome"] == "exported" and res["n"] <= 4096 and res["trace"]["ev"][-1]["ev"] == "Accept" and not cases_by_id[res["id"]].get("hist"):
                 c0 = cases_by_id[res["id"]]
                 feat = (c0["kind"], True) if c0.get("ks") else (c0["comp"], c0.get("tz") == "custom")
                 if feat not in best or res["n"] < best[feat]["n"]:
@@ -1090,7 +1413,12 @@ def run(tier):
         "RSA 2048/3072/4096 for certificate block v1, in every composition with a certificate block) "
         "and the LENGTH CLASSES OF THE ISK USER DATA (none / 4 / 96 / 1, 2, 3 / 93, 94, 95 bytes (thorough: + 5..7, 32..35, 61..64) x P-256 / P-384 root x "
         "P-256 / P-384 ISK x route: iskCertData of the configuration, CertBlockV21(family=...) + class constructor, the same without a family; in every "
-        "composition with certificate block v2.1; a length the tool refuses exports nothing and is recorded, not judged); each "
+        "composition with certificate block v2.1; a length the tool refuses exports nothing and is recorded, not judged) "
+        "and the HISTORIES of the objects an image is built from (MbiHist.tla: NewCb / NewMbi(payload) / SetApp(payload) / Export / Sb (SB2.1 container signed "
+        "with the same certificate block object) / Parse (last image read back) / CbBin (block cut out of the last image, read through `certBlock:`); one "
+        "shortest program per abstract state (block written last by: nobody / export of this object / of an earlier object / SB2.1 / parse / binary; MBI object "
+        "new / exported / parsed; length register of the block none / same / longer / shorter / the container's; payload first / same / grown / shrunk against the last image), every maximal program in every "
+        "composition of its kind, every exported image of a program judged); each "
         "case is built by load_from_config/export, walked by the executor and "
         "decided by TLC; non-trivial = the trace reaches Accept (unsettled corner: CertSplit); distinct by (composition, key class, feature class, "
         "length mod 4, TrustZone mode)"
@@ -1115,6 +1443,12 @@ def run(tier):
         "family (configuration route, CertBlockV21(family=...)) and exports them when the classes are used without a family. The ROM model decides no "
         "alignment: asserted for whatever IS exported are the clauses of every image - the ISK signature verifies under the selected root key over the "
         "bytes in front of it exactly as they stand in the file, block size, manifest, image signature over all preceding bytes",
+        "histories: the objects are used through their public interface only (load_from_config, class constructor with cert_block=, the `app` property / "
+        "load_binary_image_file, export, MasterBootImage.parse + the signature provider and HMAC key the reader cannot know, `certBlock:` naming a binary "
+        "block, BootImageV21.cert_block); a step the tool refuses exports nothing and is recorded, not judged; programs with Parse use default / disabled "
+        "TrustZone and no relocation table (what the reader gives back of those is C01's subject, known findings there); containers other than SB2.1 "
+        "(SB2.0: refuses a block left at alignment 16; SB3.1: certificate block v2.1 holds no field that depends on the image) are not generated; "
+        "what is asserted for every exported image is the ROM model and nothing about the objects (their registers are read only to confirm the plan)",
         "signing back ends: a provider is used through the documented configuration entry (signPrivateKey / mainRootCertPrivateKeyFile / signProvider) and "
         "implements the documented interface (sign, signature_length); DER blobs are the ones `cryptography` (OpenSSL) emits, i.e. minimal-length INTEGERs; "
         "providers that return anything else (wrong width, other containers) are not generated; a remote proxy provider (type=proxy) is not run",
@@ -1126,6 +1460,9 @@ def run(tier):
         raise Machinery(f"{len(missed)} planned special values were not reached on the exported bytes, e.g. {missed[0]}")
     if be_missed and rc == 0:
         raise Machinery(f"{len(be_missed)} images were not signed by the plug-in back end their case names, e.g. {be_missed[0]}")
+    if (hist_missed or hist_holes) and rc == 0:
+        raise Machinery(f"{len(hist_missed)} exports of the history lane did not find the block object as planned, {len(hist_holes)} planned classes were "
+                        f"not exported in some composition, e.g. {(hist_missed + hist_holes)[0]}; refused steps: {sorted(set(hist_refused))[:3]}")
     return rc
 
 
@@ -1164,7 +1501,17 @@ def replay(path):
     comp = comps.get(case["comp"])
     if comp is None:
         raise Machinery(f"composition {case['comp']} is not in the database any more")
-    data, rom, sec, info = build(case, comp, os.path.join(scratch(), "c02-replay"))
+    if case.get("hist"):  # a history: replayed up to the export the witness names
+        k = case["hstep"]["k"]
+        exports, failure = hist_replay(case, comp, os.path.join(scratch(), "c02-replay"), upto=k)
+        if len(exports) <= k:
+            raise Machinery(f"replay: the history does not reach its export #{k + 1} any more: {failure}")
+        e = exports[k]
+        data, rom, sec, info = e["data"], e["rom"], e["sec"], {"pay": e["pay"]}
+        say(f"history: {' '.join(o['op'] + (str(o['a']) if o['a'] else '') for o in case['hist']['prog'][:e['op'] + 1])}; "
+            f"length register of the block object in front of this export as planned: {e['reached']}")
+    else:
+        data, rom, sec, info = build(case, comp, os.path.join(scratch(), "c02-replay"))
     ev, _ = R.walk(data, rom, sec)
     for e in ev:
         say(json.dumps(e)[:400])
